@@ -2,7 +2,10 @@
   C05 — a moving target stays on its source until the destination has scraped it.
 -/
 import Kvass.Pins.Coord
+import Kvass.Pins.Sidecar
 import Kvass.Proofs.CoordKeep
+import Kvass.Proofs.CoordRemoval
+import Kvass.Proofs.LoopHandover
 import Kvass.Proofs.CoordMove
 
 namespace Kvass.Props.C05
@@ -11,81 +14,12 @@ open Kvass Kvass.Coord Kvass.Spec
 /-- the hand-over threshold in the code is the documented one (README: "at least 3 times") -/
 theorem minWait_is_three : Gen.minWait = C05.handover := rfl
 
-/-- status lists come from JSON maps: one entry per hash -/
-def NodupKeys (inp : Input) : Prop := ∀ p ∈ inp.probes, (reported p).keys.Nodup
-
-theorem get_of_mem_nodup {α} (m : AL α) (h : Hash) (v : α) (hm : (h, v) ∈ m) (hn : m.keys.Nodup) :
-    m.get h = some v := by
-  induction m with
-  | nil => cases hm
-  | cons e m ih =>
-    obtain ⟨k, x⟩ := e
-    simp only [AL.keys, List.map_cons, List.nodup_cons] at hn
-    rcases List.mem_cons.mp hm with he | hm'
-    · cases he; simp [AL.get]
-    · have hk : k ≠ h := by
-        intro e; subst e
-        exact hn.1 (List.mem_map.mpr ⟨(k, v), hm', rfl⟩)
-      simp only [AL.get, hk, if_false]
-      exact ih hm' hn.2
-
-/-- the surviving holder with the scrape counts of both sides -/
-theorem holder_after (swr : Swr) (sc : Sched) (inp : Input) {i : Nat} {p : Probe} {h : Hash} {v : St}
-    (hp : inp.probes[i]? = some p) (hin : inSync p = true) (hg : (reported p).get h = some v)
-    (ha : h ∈ inp.active) :
-    ∃ (j : Nat) (pj : Probe) (rj : List Req) (vj : St), inp.probes[j]? = some pj ∧
-      (cycle swr sc inp).reqs[j]? = some rj ∧ inSync pj = true ∧
-      (reported pj).get h = some vj ∧ h ∈ afterKeys pj rj ∧ (j = i ∨ (3 ≤ v.times ∧ 3 ≤ vj.times)) := by
-  cases hne : stopsEarly inp with
-  | true =>
-    rcases reqs_cases swr sc inp hp with hr | ⟨hf, _⟩
-    · refine ⟨i, p, _, v, hp, hr, hin, hg, ?_, Or.inl rfl⟩
-      rw [afterKeys_noPost]; exact AL.get_some_mem_keys _ _ _ hg
-    · rw [hne] at hf; cases hf
-  | false =>
-    obtain ⟨j, pj, sj, vj, v', hpj, hinj, hrep, hfin, _, hsj, htimes⟩ := survivor swr sc inp hne hp hin hg ha
-    rcases reqs_cases swr sc inp hpj with hr | ⟨_, s, hs, hr⟩
-    · refine ⟨j, pj, _, vj, hpj, hr, hinj, hrep, ?_, htimes⟩
-      rw [afterKeys_noPost]; exact AL.get_some_mem_keys _ _ _ hrep
-    · rw [hfin] at hs; cases hs
-      exact ⟨j, pj, _, vj, hpj, hr, hinj, hrep, afterKeys_apply_mem _ _ _ _ _ _ hrep hsj ha, htimes⟩
-
 /-- **C05 (removal)**: in every cycle an in-sync shard loses a still-discovered target only if it
     has itself scraped it at least 3 times and some *other* in-sync shard that keeps the target
     has scraped it at least 3 times — for every schedule and input. -/
 theorem C05_removal (swr : Swr) (sc : Sched) (inp : Input) (hnd : NodupKeys inp) :
-    C05.removal inp (Obs.ofOutcome (cycle swr sc inp)) = true := by
-  unfold C05.removal
-  simp only [List.all_eq_true, Bool.or_eq_true, Bool.not_eq_true']
-  rintro ⟨i, p, r⟩ hmem
-  obtain ⟨hp, hr⟩ := mem_shardsOf.mp hmem
-  simp only
-  cases hin : inSync p with
-  | false => exact Or.inl rfl
-  | true =>
-    right
-    rintro ⟨h, st⟩ hst
-    simp only
-    have hg : (reported p).get h = some st :=
-      get_of_mem_nodup _ _ _ hst (hnd p (List.mem_of_getElem? hp))
-    by_cases ha : h ∈ inp.active
-    · obtain ⟨j, pj, rj, vj, hpj, hrj, hinj, hrep, hmemj, hor⟩ := holder_after swr sc inp hp hin hg ha
-      by_cases hji : j = i
-      · subst hji
-        rw [hp] at hpj; cases hpj
-        have : r = rj := by
-          have h1 : (Obs.ofOutcome (cycle swr sc inp)).reqs[j]? = some rj := hrj
-          rw [hr] at h1; exact Option.some.inj h1
-        subst this
-        exact Or.inl (Or.inl (by simpa using hmemj))
-      · right
-        rcases hor with e | ⟨h3, h3j⟩
-        · exact absurd e hji
-        · simp only [Bool.and_eq_true, decide_eq_true_eq, List.any_eq_true, C05.handover]
-          refine ⟨by simpa using h3, (j, pj, rj), mem_shardsOf.mpr ⟨hpj, hrj⟩, ?_⟩
-          simp only [bne_iff_ne, ne_eq, hrep]
-          exact ⟨⟨⟨hji, hinj⟩, by simpa using hmemj⟩, by simpa using h3j⟩
-    · exact Or.inl (Or.inr (by simpa using ha))
+    C05.removal inp (Obs.ofOutcome (cycle swr sc inp)) = true :=
+  removal_cycle swr sc inp hnd
 
 /-- **C05 (move step)**: for every schedule, a target newly given to a shard while another in-sync
     shard reports it (a move, not a first assignment) is in *normal* state on the destination, and an
@@ -112,5 +46,26 @@ def exSwrBad : Swr := fun _ _ => 0
 example : C05.swrOK exSwrBad ⟨0, 100, 5, 0, true, false⟩ = false := by decide
 /-- … while multiplying by a rate ≥ 1 satisfies it -/
 example : C05.swrOK (fun x r => x * r / 10) ⟨1000, 1000, 5, 0, true, false⟩ = true := by decide
+
+/-- **C05 on the sidecars' own counters** (closed-loop model: coordinator cycle + sidecar update):
+    if, after the requests of a full, crash-free, fault-free cycle, a running sidecar no longer reports
+    a discovered target it reported before, then it had scraped that target at least three times, and
+    another running sidecar that had scraped it at least three times still reports it — there is no
+    moment at which nobody scrapes it. -/
+theorem C05_loop_handover_rule (swr : Swr) (env : Loop.Env) (w : Loop.World) (sc : Sched)
+    (hrep : w.replicas ≤ w.shards.length)
+    (hne : stopsEarly (Loop.inputOf env w [] false) = false)
+    (hnc : (cycle swr sc (Loop.inputOf env w [] false)).crashed = false)
+    (hnd : ∀ sh ∈ w.running, (Loop.statusOf sh).keys.Nodup)
+    {i : Nat} {sh sh' : Loop.Shard} {h : Hash} {r : St} (hrun : w.running[i]? = some sh)
+    (hr : (Loop.statusOf sh).get h = some r) (ha : h ∈ w.active)
+    (hsh' : (Loop.applyOutcome w [] (cycle swr sc (Loop.inputOf env w [] false))).shards[i]? = some sh')
+    (hgone : (Loop.statusOf sh').has h = false) :
+    3 ≤ r.times ∧
+    ∃ (j : Nat) (shj shj' : Loop.Shard) (rj : St), j ≠ i ∧ w.running[j]? = some shj ∧
+      (Loop.statusOf shj).get h = some rj ∧ 3 ≤ rj.times ∧
+      (Loop.applyOutcome w [] (cycle swr sc (Loop.inputOf env w [] false))).shards[j]? = some shj' ∧
+      (Loop.statusOf shj').has h = true :=
+  Loop.loop_handover_rule swr env w sc hrep hne hnc hnd hrun hr ha hsh' hgone
 
 end Kvass.Props.C05
